@@ -13,12 +13,13 @@ import random
 PTS = "PTS"  # placeholder: post_training_scale taken from a first call at run time
 ARR_COL = "ARR_COL"    # placeholder: per-row array alpha of shape (6, 1) (non-trailing axis of the (6, 4) probes)
 ARR_ROW = "ARR_ROW"    # placeholder: per-column array alpha of shape (1, 4)
-PLACEHOLDERS = (PTS, ARR_COL, ARR_ROW)
+NP_ALPHA = "NP_FLOAT32_2"   # placeholder: alpha = numpy.float32(2.0) (an option value computed with numpy, e.g. np.mean(np.abs(w)))
+PLACEHOLDERS = (PTS, ARR_COL, ARR_ROW, NP_ALPHA)
 
 DOMAIN = {
     "quantized_bits": {
         "bits": [4, 2], "integer": [2, 1], "symmetric": [1], "keep_negative": [False],
-        "alpha": [2.0, 2.0 ** -10, "auto", "auto_po2"], "use_stochastic_rounding": [True],
+        "alpha": [2.0, 2.0 ** -10, "auto", "auto_po2", NP_ALPHA], "use_stochastic_rounding": [True],
         "scale_axis": [0], "qnoise_factor": [0.5, 0.0], "var_name": ["vq"], "use_ste": [False],
         "use_variables": [True], "elements_per_scale": [2], "min_po2_exponent": [-2, 0],
         "max_po2_exponent": [1, 0], "post_training_scale": [PTS],
@@ -29,11 +30,11 @@ DOMAIN = {
         "scale_axis": [0], "qnoise_factor": [0.5], "var_name": ["vq"], "use_variables": [True],
     },
     "bernoulli": {"alpha": [2.0, "auto", "auto_po2"], "temperature": [2.0, 8.0], "use_real_sigmoid": [False]},
-    "ternary": {"alpha": [2.0, "auto", "auto_po2"], "threshold": [0.7, 0.0, 0.123456789], "use_stochastic_rounding": [True],
+    "ternary": {"alpha": [2.0, "auto", "auto_po2", NP_ALPHA], "threshold": [0.7, 0.0, 0.123456789], "use_stochastic_rounding": [True],
                 "number_of_unrolls": [2]},
     "stochastic_ternary": {"alpha": [2.0, "auto", "auto_po2"], "threshold": [0.7, 0.0], "temperature": [4.0, 6.0],
                            "use_real_sigmoid": [False], "number_of_unrolls": [2]},
-    "binary": {"use_01": [True], "alpha": [2.0, "auto", "auto_po2"], "use_stochastic_rounding": [True],
+    "binary": {"use_01": [True], "alpha": [2.0, "auto", "auto_po2", NP_ALPHA], "use_stochastic_rounding": [True],
                "scale_axis": [0, [0, 1]], "elements_per_scale": [2], "min_po2_exponent": [-1], "max_po2_exponent": [0]},
     "stochastic_binary": {"alpha": [2.0, "auto", "auto_po2"], "temperature": [2.0, 8.0], "use_real_sigmoid": [False]},
     "quantized_relu": {
@@ -84,7 +85,7 @@ REQUIRES = {
 
 def valid(cls, kw):
   a = kw.get("alpha")
-  auto = isinstance(a, str)
+  auto = isinstance(a, str) and a in ("auto", "auto_po2")      # placeholders (tensor / numpy-typed alphas) are constants
   if cls == "quantized_bits":
     if kw.get("elements_per_scale") is not None and (a != "auto_po2" or kw.get("scale_axis") is None):
       return False
